@@ -4,6 +4,7 @@ import (
 	"fmt"
 	"go/token"
 	"go/types"
+	"strings"
 
 	"golang.org/x/tools/go/ssa"
 
@@ -84,7 +85,13 @@ func runX9(p *an.Prog, r *an.Result) {
 		case *ssa.ChangeType:
 			return eval(x.X, env, depth+1)
 		case *ssa.Convert:
-			return eval(x.X, env, depth+1)
+			t := eval(x.X, env, depth+1)
+			if t.kind == "num" && t.why == "float" {
+				if b, ok := x.Type().Underlying().(*types.Basic); ok && b.Info()&types.IsInteger != 0 {
+					return bad("an integer literal goes through a floating-point parse: integers above 2^53 lose their value")
+				}
+			}
+			return t
 		case *ssa.Phi:
 			var out textVal
 			for i, e := range x.Edges {
@@ -155,6 +162,9 @@ func runX9(p *an.Prog, r *an.Result) {
 			case "strconv.ParseInt", "strconv.ParseFloat", "strconv.Atoi", "strconv.ParseUint":
 				t := eval(x.Call.Args[0], env, depth+1)
 				if t.kind == "text" && t.a == 0 && t.b == 0 {
+					if an.FuncName(callee) == "strconv.ParseFloat" {
+						return textVal{kind: "num", why: "float"}
+					}
 					return textVal{kind: "num"}
 				}
 				return bad("number parsed from %s, not from the whole token", t)
@@ -506,4 +516,209 @@ func runX11(p *an.Prog, r *an.Result) {
 		}
 	})
 	r.Floor("whole-value comparisons", 2)
+}
+
+// ---------------------------------------------------------------------------
+// X12
+
+func init() {
+	register("X12", "strict-variables mode is one switch with one effect: the flag the engine's setter stores is read only where an object's evaluated value is tested against nil, and value == nil with the flag set leads to an error return located at the object; without the flag nothing changes", runX12)
+}
+
+func runX12(p *an.Prog, r *an.Result) {
+	// the flag: the bool field into which an exported, parameterless engine method stores true
+	var flagOwner types.Type
+	flagIdx := -1
+	var setter *ssa.Function
+	for _, f := range p.Funcs {
+		if f.Object() == nil || !f.Object().Exported() || f.Signature.Recv() == nil || f.Signature.Params().Len() != 0 || isMainPkg(f) {
+			continue
+		}
+		if !strings.Contains(strings.ToLower(f.Name()), "strict") {
+			continue
+		}
+		an.EachInstr(f, func(in ssa.Instruction) {
+			st, ok := in.(*ssa.Store)
+			if !ok {
+				return
+			}
+			fa, ok := st.Addr.(*ssa.FieldAddr)
+			if !ok {
+				return
+			}
+			if c, isC := an.ConstBool(st.Val); isC && c {
+				flagOwner, flagIdx, setter = derefT(fa.X.Type()), fa.Field, f
+			}
+		})
+	}
+	if setter == nil {
+		r.Bad("-", "strict-mode setter not found", token.NoPos, "no exported method stores true into a configuration flag")
+		return
+	}
+	r.OK(an.FuncName(setter), "sets the strict flag", an.FuncPos(setter), "stores true into the configuration field")
+	isFlagRead := func(v ssa.Value) bool {
+		switch x := v.(type) {
+		case *ssa.Field:
+			return x.Field == flagIdx && types.Identical(x.X.Type(), flagOwner)
+		case *ssa.UnOp:
+			if fa, ok := x.X.(*ssa.FieldAddr); ok && x.Op == token.MUL {
+				return fa.Field == flagIdx && types.Identical(derefT(fa.X.Type()), flagOwner)
+			}
+		}
+		return false
+	}
+	reads := 0
+	for _, fn := range p.Funcs {
+		if isMainPkg(fn) || fn == setter {
+			continue
+		}
+		name := an.FuncName(fn)
+		an.EachInstr(fn, func(in ssa.Instruction) {
+			v, ok := in.(ssa.Value)
+			if !ok || !isFlagRead(v) {
+				return
+			}
+			reads++
+			r.Counts["strict flag reads"]++
+			// the read decides a branch whose true edge is an error return, and which is reached only
+			// after the evaluated value was found nil
+			var ifi *ssa.If
+			if v.Referrers() != nil {
+				for _, u := range *v.Referrers() {
+					if x, ok := u.(*ssa.If); ok {
+						ifi = x
+					}
+				}
+			}
+			if ifi == nil {
+				r.Bad(name, "strict flag used for something other than a branch", an.InstrPos(in), "the flag may only decide whether a nil object value is an error")
+				return
+			}
+			// an object's final value: the evaluated value that this function goes on to print
+			printed := func(v ssa.Value) bool {
+				if v.Referrers() == nil {
+					return false
+				}
+				for _, u := range *v.Referrers() {
+					if c, ok := u.(*ssa.Call); ok {
+						for _, a := range c.Call.Args {
+							if isWriterType(a.Type()) {
+								return true
+							}
+						}
+					}
+				}
+				return false
+			}
+			nilTrue := func(cond ssa.Value, taken bool) bool {
+				b, ok := cond.(*ssa.BinOp)
+				if !ok || !(b.Op == token.EQL && taken || b.Op == token.NEQ && !taken) {
+					return false
+				}
+				for _, pair := range [][2]ssa.Value{{b.X, b.Y}, {b.Y, b.X}} {
+					if !an.IsNilConst(pair[1]) {
+						continue
+					}
+					for _, o := range an.Origins(pair[0], an.StepValue) {
+						if ex, ok := o.(*ssa.Extract); ok && ex.Index == 0 {
+							if c, ok := ex.Tuple.(*ssa.Call); ok && strings.HasSuffix(an.CallName(&c.Call), ".Evaluate") && printed(ex) {
+								return true
+							}
+						}
+					}
+				}
+				return false
+			}
+			flagTrue := func(cond ssa.Value, taken bool) bool { return taken && cond == v }
+			// the blocks entered with both conditions established, in either order of testing
+			var targets []*ssa.BasicBlock
+			for _, blk := range fn.Blocks {
+				if len(blk.Preds) == 0 {
+					continue
+				}
+				if an.AllPathsGuarded(blk, nilTrue) && an.AllPathsGuarded(blk, flagTrue) {
+					both := false
+					for _, pr := range blk.Preds {
+						if !(an.AllPathsGuarded(pr, nilTrue) && an.AllPathsGuarded(pr, flagTrue)) {
+							both = true // the edge into blk is where the second condition becomes known
+						}
+					}
+					if both {
+						targets = append(targets, blk)
+					}
+				}
+			}
+			nilFirst := len(targets) > 0
+			// without the nil test the flag decides nothing: the false side of the nil test never reads it
+			// (checked by requiring every path to the flag's branch... in either order, so only the joint target counts)
+			errRet := true
+			seen := map[*ssa.BasicBlock]bool{}
+			var dfs func(b *ssa.BasicBlock)
+			dfs = func(b *ssa.BasicBlock) {
+				if seen[b] {
+					return
+				}
+				seen[b] = true
+				if ret, ok := b.Instrs[len(b.Instrs)-1].(*ssa.Return); ok {
+					res := resultsOf(ret)
+					if len(res) == 0 || an.IsNilConst(res[len(res)-1]) {
+						errRet = false
+					}
+					return
+				}
+				for _, s := range b.Succs {
+					dfs(s)
+				}
+			}
+			for _, t := range targets {
+				dfs(t)
+			}
+			// the flag alone changes nothing: what only the flag's true edge reaches, short of the joint
+			// target, does nothing but test
+			reachFrom := func(start *ssa.BasicBlock, stop map[*ssa.BasicBlock]bool) map[*ssa.BasicBlock]bool {
+				out := map[*ssa.BasicBlock]bool{}
+				var rf func(b *ssa.BasicBlock)
+				rf = func(b *ssa.BasicBlock) {
+					if out[b] || stop[b] {
+						return
+					}
+					out[b] = true
+					for _, x := range b.Succs {
+						rf(x)
+					}
+				}
+				rf(start)
+				return out
+			}
+			tset := map[*ssa.BasicBlock]bool{}
+			for _, t := range targets {
+				tset[t] = true
+			}
+			onTrue := reachFrom(ifi.Block().Succs[0], tset)
+			onFalse := reachFrom(ifi.Block().Succs[1], nil)
+			for blk := range onTrue {
+				if onFalse[blk] {
+					continue
+				}
+				for _, x := range blk.Instrs {
+					switch x.(type) {
+					case *ssa.BinOp, *ssa.UnOp, *ssa.If, *ssa.Jump, *ssa.Phi, *ssa.Field, *ssa.FieldAddr, *ssa.Extract, *ssa.DebugRef:
+					default:
+						nilFirst = false
+					}
+				}
+			}
+			switch {
+			case !nilFirst:
+				r.Bad(name, "strict flag consulted without the printed value having been found nil", an.InstrPos(in), "strict mode must only turn an undefined (nil) object value - the value an object is about to print - into an error; conditions, case subjects and filter arguments may be nil")
+			case !errRet:
+				r.Bad(name, "nil value in strict mode does not fail", an.InstrPos(in), "with the flag set a nil object value must end in an error return")
+			default:
+				r.OK(name, "value == nil && strict -> error", an.InstrPos(in), "the flag is read only after the evaluated value was found nil, and its true edge leads only to error returns")
+			}
+		})
+	}
+	if reads == 0 {
+		r.Bad("-", "the strict flag is never read", token.NoPos, "strict-variables mode has no effect")
+	}
 }
